@@ -90,4 +90,20 @@ Max2(a, b) == IF a >= b THEN a ELSE b
 \* concatenation of a sequence of sequences
 RECURSIVE Flatten(_)
 Flatten(ss) == IF ss = <<>> THEN <<>> ELSE Head(ss) \o Flatten(Tail(ss))
+\* well-formed UTF-8 (as std::str::from_utf8 decides it): s is a sequence of bytes
+RECURSIVE Utf8From(_, _)
+Utf8From(s, i) ==
+    IF i > Len(s) THEN TRUE
+    ELSE LET b == s[i]
+             cont(j, lo, hi) == j <= Len(s) /\ s[j] >= lo /\ s[j] <= hi IN
+         IF b < 128 THEN Utf8From(s, i + 1)
+         ELSE IF b >= 194 /\ b <= 223 THEN cont(i + 1, 128, 191) /\ Utf8From(s, i + 2)
+         ELSE IF b = 224 THEN cont(i + 1, 160, 191) /\ cont(i + 2, 128, 191) /\ Utf8From(s, i + 3)
+         ELSE IF b = 237 THEN cont(i + 1, 128, 159) /\ cont(i + 2, 128, 191) /\ Utf8From(s, i + 3)
+         ELSE IF b >= 225 /\ b <= 239 THEN cont(i + 1, 128, 191) /\ cont(i + 2, 128, 191) /\ Utf8From(s, i + 3)
+         ELSE IF b = 240 THEN cont(i + 1, 144, 191) /\ cont(i + 2, 128, 191) /\ cont(i + 3, 128, 191) /\ Utf8From(s, i + 4)
+         ELSE IF b >= 241 /\ b <= 243 THEN cont(i + 1, 128, 191) /\ cont(i + 2, 128, 191) /\ cont(i + 3, 128, 191) /\ Utf8From(s, i + 4)
+         ELSE IF b = 244 THEN cont(i + 1, 128, 143) /\ cont(i + 2, 128, 191) /\ cont(i + 3, 128, 191) /\ Utf8From(s, i + 4)
+         ELSE FALSE
+IsUtf8(s) == Utf8From(s, 1)
 =============================================================================
